@@ -181,6 +181,7 @@ def translate():
         scoring_init = find_sig(sl, "ScoringMatrix", "__init__")
         create = find_sig(sl, None, "create")
         stripe = find_sig(sl, None, "stripe")
+        encoded = find_sig(sl, "EncodedSequence", "__init__")
         loader = find_sig(si, "Loader", "__init__")
         load = find_sig(si, None, "load")
 
@@ -206,7 +207,7 @@ def translate():
         sc_arms = string_arms(fn_body(lib, r"pub fn score\(slf: Bound<'_, Self>, pvalue: f64, method: &str\)"), "method")
         ld_body = fn_body(io, r"pub fn __init__\(\s*file: Bound<PyAny>,\s*format: &str,\s*protein: bool,\s*\)")
         ld_arms = string_arms(ld_body[ld_body.index("let reader"):], "format")
-        protein_defaults = [boollit(default_of(s, "protein")) for s in (count_init, scoring_init, create, stripe, loader, load)]
+        protein_defaults = [boollit(default_of(s, "protein")) for s in (count_init, scoring_init, create, stripe, loader, load, encoded)]
         lines = [
             "(* GENERATED by translate/pyglue_sig.py from lightmotif-py/lightmotif/{lib.rs,io.rs} and",
             "   lightmotif/src/abc.rs - do not edit; regenerated (write-if-changed) on every check of C17 *)",
@@ -244,6 +245,9 @@ def translate():
             "Definition gen_normalize_pseudocount_none : bool := %s." % is_none(default_of(normalize, "pseudocount")),
             "Definition gen_scoring_init_background_none : bool := %s." % is_none(default_of(scoring_init, "background")),
             "Definition gen_create_name_none : bool := %s." % is_none(default_of(create, "name")),
+            "(* EncodedSequence(sequence, protein=false): `protein` may be given by position (no `*`) *)",
+            "Definition gen_encoded_params : list (list Z) := [%s]." % "; ".join(zs(n) for n, _ in encoded[2]),
+            "Definition gen_encoded_keyword_only : bool := %s." % ("false" if encoded[3] is None else "true"),
             "",
         ]
         for g in (a for a, gd, _ in ld_arms if gd not in (None, "protein")):
